@@ -24,7 +24,9 @@ MANIFEST = dict(
     technique="Lean 4 proof (model of _extract_rc / per-host rc / exec_destroy / -S loop / main refines the "
               "exit-status specification; induction over host lists and lines) + differential correspondence of the "
               "real dsh.c, execcmd.c and the pdsh binary against the compiled model",
-    text="Theorems in lean/PdshVerif/Props/C08.lean about the model Dsh/Exit.lean: without -S/-k exit 0, refused "
+    text="Theorems in lean/PdshVerif/Props/C08.lean about the model Dsh/Exit.lean (composed with the fan-out LTS of C03: one "
+         "status per target in every schedule; with the option model of C18: pdcp/rpdcp exit 0, every refusal exits 1; with the "
+         "relay model of C05/C06 and the cbuf model of C13): the status marker is requested exactly with -S/-k, without -S/-k exit 0, refused "
          "arguments exit 1, -S = max of the remote codes raised to 254 (order independent), 0 iff every command ran "
          "and succeeded, marker extraction, abnormal termination non-zero, -k any failure non-zero; each proved for "
          "the repaired variant with a kernel-checked counterexample for the unchanged code where that is false; the "
@@ -91,6 +93,111 @@ def gen_scenario(rng, magic, nmax=6):
         for h in hosts:     # under -k the mid-stream check (_die_if_signalled) makes late lines time dependent
             h["late"] = b""
     return {"S": S, "k": k, "fanout": rng.choice([1, 2, n, n + 1, 32]), "cmdtmo": 0, "hosts": hosts}
+
+
+def mk_host(chan, outcome, delay=0, **kw):
+    h = {"chan": chan, "outcome": outcome, "out": b"", "pre": b"", "late": b"", "delay": delay}
+    h.update(kw)
+    return h
+
+
+SYS_OUTCOMES = [("exited", 0), ("exited", 3), ("exited", 255), ("killed", 9), ("cf", 0)]
+
+
+def systematic_scenarios():
+    """run in EVERY quick run, no randomness: for each of {-S, -k, neither, both} and each status channel
+    (in-band marker / out-of-band wait status): every ordered pair of outcomes over {rc 0, rc n, rc 255 (> 254), killed by
+    a signal, connect failure} in both completion orders; three targets with ONE failing target in every position, run
+    in parallel (fanout 32, the failing one finishing last / first) and one after the other (fanout 1); mixed channels"""
+    out = []
+    for S, k in ((1, 0), (0, 1), (0, 0), (1, 1)):
+        for chan in ("inband", "exec"):
+            for a in SYS_OUTCOMES:
+                for b in SYS_OUTCOMES:
+                    # both completion orders (one is enough for two equal outcomes and for a run without -S / -k)
+                    for da, db in (((0, 8), (8, 0)) if a != b and (S or k) else ((0, 8),)):
+                        out.append({"S": S, "k": k, "fanout": 32, "cmdtmo": 0,
+                                    "hosts": [mk_host(chan, a, da), mk_host(chan, b, db)]})
+            for bad in SYS_OUTCOMES[1:]:
+                for pos in range(3):
+                    for fanout, dbad, dok in (((32, 8, 0), (32, 0, 8), (1, 0, 0)) if (S or k) else ((32, 8, 0),)):
+                        hosts = [mk_host(chan, ("exited", 0), dok) for _ in range(3)]
+                        hosts[pos] = mk_host(chan, bad, dbad)
+                        out.append({"S": S, "k": k, "fanout": fanout, "cmdtmo": 0, "hosts": hosts})
+        for a in SYS_OUTCOMES[1:]:          # one channel each
+            out.append({"S": S, "k": k, "fanout": 32, "cmdtmo": 0, "hosts": [mk_host("inband", a), mk_host("exec", ("exited", 0))]})
+            out.append({"S": S, "k": k, "fanout": 32, "cmdtmo": 0, "hosts": [mk_host("exec", a), mk_host("inband", ("exited", 0))]})
+    return out
+
+
+def systematic_canceled():
+    """canceled targets (DSH_CANCELED: the command never ran) in every position next to every other outcome, all four
+    flag combinations"""
+    others = ["c1,o-,v0,d0,t0", "c1,o-,v3,d0,t0", "c1,o-,v255,d0,t0", "c0,o-,v0,d0,t0", "c1,o-,v0,d8,t0"]
+    out = []
+    for S, k in ((1, 0), (0, 1), (0, 0), (1, 1)):
+        out.append("dsh %d %d 32 0 x1" % (S, k))
+        out.append("dsh %d %d 32 0 x1;x1" % (S, k))
+        for o in others:
+            for fan in (1, 32):
+                out.append("dsh %d %d %d 0 x1;%s" % (S, k, fan, o))
+                out.append("dsh %d %d %d 0 %s;x1" % (S, k, fan, o))
+                out.append("dsh %d %d %d 0 %s;x1;%s" % (S, k, fan, others[0], o))
+    return out
+
+
+def systematic_timeouts():
+    """-u 1, every kind of overdue command: idle (the watchdog's SIGALRM interrupts the worker) or chatty (the worker
+    notices the expiry itself at the top of its poll loop) x dies on TERM / traps TERM and exits 0 / 255, in first and
+    last position, under -S; plus -k and plain"""
+    out = []
+    i = 0
+    for kind in ("idle", "chatty"):
+        for end in ("d", ("e", 0), ("e", 255)):
+            for S, k in ((1, 0),) + (((0, 1), (0, 0)) if end == "d" else ()):
+                hosts = [mk_host("exec", ("exited", 0)), mk_host("exec", ("exited", 0))]
+                hosts[i % 2] = mk_host("exec", ("to", 0), tmo={"kind": kind, "end": end})
+                i += 1
+                out.append({"S": S, "k": k, "fanout": 32, "cmdtmo": 1, "hosts": hosts})
+    return out
+
+
+def systematic_cli():
+    """through the real binary, every quick run: -k / -S / both / neither x an out-of-band failure (code, 255, signal)
+    in first and last position; a command that ends after closing its streams; overdue commands of each kind under -S"""
+    out = []
+    ex = lambda o, **kw: mk_host("exec", o, **kw)
+    for S, k in ((1, 0), (0, 1), (1, 1), (0, 0)):
+        for bad in (("exited", 3), ("exited", 255), ("killed", 9)):
+            out.append({"S": S, "k": k, "fanout": 32, "cmdtmo": 0, "hosts": [ex(bad), ex(("exited", 0))]})
+            out.append({"S": S, "k": k, "fanout": 1, "cmdtmo": 0, "hosts": [ex(("exited", 0)), ex(("exited", 0)), ex(bad)]})
+        out.append({"S": S, "k": k, "fanout": 32, "cmdtmo": 0, "hosts": [ex(("exited", 0))]})
+    for S, k, bad in ((1, 0, ("exited", 3)), (0, 1, ("killed", 9)), (1, 1, ("exited", 255))):
+        out.append({"S": S, "k": k, "fanout": 32, "cmdtmo": 0, "hosts": [ex(("exited", 0)), ex(bad, close_ms=800)]})
+    for kind, end in (("idle", "d"), ("chatty", "d"), ("chatty", ("e", 0)), ("idle", ("e", 0))):
+        out.append({"S": 1, "k": 0, "fanout": 32, "cmdtmo": 1,
+                    "hosts": [ex(("exited", 0)), ex(("to", 0), tmo={"kind": kind, "end": end})]})
+    out.append({"S": 1, "k": 0, "fanout": 32, "cmdtmo": 1,
+                "hosts": [ex(("exited", 255)), ex(("to", 0), tmo={"kind": "chatty", "end": "d"})]})
+    return out
+
+
+def systematic_lines(magic):
+    """_extract_rc, every quick run: the marker at every position of a line, every boundary code, with and without the
+    final newline, partial / repeated / embedded markers, signs, blanks, CR, NUL, long preceding text"""
+    out = []
+    for pre in (b"", b"a", b"foo", b"foo bar: ", magic[:-1], magic[1:], b"X", b"XX", magic[:2] + b" ", b"x" * 100, b"y" * 4000):
+        for code in (b"0", b"1", b"3", b"9", b"10", b"42", b"127", b"128", b"254", b"255"):
+            out.append(pre + magic + code + b"\n")
+        out.append(pre + magic + b"7")                  # no final newline
+        out.append(pre + magic + b"\n")                 # no digits
+    for num in (b"256", b"999", b"00", b"007", b"-1", b"+3", b" 3", b"3 ", b"3x", b"3\r", b"0x3", b"2147483648", b"4294967299"):
+        out.append(magic + num + b"\n")
+        out.append(b"t" + magic + num + b"\n")
+    out += [magic + b"1\n" + magic + b"2\n", magic + b"5" + magic + b"6\n", b"a" + magic + b"5" + magic + b"6\n",
+            magic + magic + b"\n", b"\0" + magic + b"4\n", b"a\0" + magic + b"4\n", magic + b"4\0\n", magic.lower() + b"4\n",
+            magic[:-1] + b"4\n", b" " + magic + b"8\n", magic + b"8\n\n", b"\n" + magic + b"8\n"]
+    return out
 
 
 def host_stdout(h, magic):
@@ -362,12 +469,14 @@ REFUSED = [["-S", "-R", "exec", "true"],                                  # no t
 
 
 def run_cli(argv, timeout=25):
-    try:
-        p = subprocess.run(argv, stdin=subprocess.DEVNULL, stdout=subprocess.PIPE, stderr=subprocess.PIPE,
-                           env={"PATH": "/usr/bin:/bin"}, timeout=timeout)
-        return p.returncode, p.stderr.decode("utf-8", "replace")[-300:]
-    except subprocess.TimeoutExpired:
-        return None, "TIMEOUT"
+    for attempt in (0, 1):          # a time-out alone is tried once more before it is reported (loaded machine)
+        try:
+            p = subprocess.run(argv, stdin=subprocess.DEVNULL, stdout=subprocess.PIPE, stderr=subprocess.PIPE,
+                               env={"PATH": "/usr/bin:/bin"}, timeout=timeout)
+            return p.returncode, p.stderr.decode("utf-8", "replace")[-300:]
+        except subprocess.TimeoutExpired:
+            continue
+    return None, "TIMEOUT"
 
 
 def run_cancel(pdsh, helper, nhosts):
@@ -426,6 +535,12 @@ def run(ctx):
                    "through the scratch-built pdsh binary with -R exec and a helper command, plus refused argument lists; "
                    "including commands that close stdin/stdout/stderr and end 0.7-1.5 s later with a non-zero code or a signal "
                    "(exec_destroy must wait for them), plus refused argument lists; "
+                   "every quick run also contains, without randomness: every ordered pair of {rc 0, rc n, rc 255, signal, connect failure} "
+                   "x channel x {-S, -k, both, neither} x both completion orders; three targets with one failing target in every position "
+                   "(parallel: failing one first / last; fanout 1); canceled targets next to every outcome; every kind of overdue command "
+                   "(idle / chatty x dies / traps TERM and exits 0 / 255); the same classes through the real binary; marker lines with the "
+                   "marker at every position x boundary codes; (e) the command string dsh() hands to the transport (status marker requested "
+                   "exactly with -S / -k); "
                    "non-trivial = at least one target does not simply succeed (non-zero code, signal, failure, marker with "
                    "preceding text or later lines); distinct = distinct case text"}
     dist = {"xrc": 0, "xrc_with_marker": 0, "xd": 0, "dsh_domain": 0, "dsh_raw": 0, "cli": 0, "cli_refused": 0,
@@ -442,7 +557,7 @@ def run(ctx):
         nx = 1500 if ctx.quick() else 25000
         lines = [b"foo" + magic + b"3\n", magic + b"3\n", b"foo" + magic + b"255\n", b"foo" + magic + b"3",
                  magic, magic + b"\n", b"a" + magic + b"\n", b"", b"\n", magic + magic + b"7\n",
-                 b"x" + magic + b"1" + magic + b"9\n"] + load_corpus("xrc")
+                 b"x" + magic + b"1" + magic + b"9\n"] + load_corpus("xrc") + systematic_lines(magic)
         lines += [gen_line(rng, magic, newline=rng.random() < 0.85) for _ in range(nx)]
         ops = [["xrc " + hexs(l)] for l in lines]
         impl = run_batch([exe], ops, env=env)
@@ -469,6 +584,27 @@ def run(ctx):
                                  "_extract_rc(%r) = `%s`, the marker line denotes `%s`" % (l, ans[0], want),
                                  {"op": "xrc", "line_hex": hexs(l), "line": l.decode("latin1"), "impl": ans[0],
                                   "expected": want})
+        # ---- (e) the request for the status: what dsh() asks the transport to run --------------------------
+        # oracle BY BEHAVIOUR, not by spelling: the string handed to the transport is given to a real shell; with -S / -k
+        # the last line it prints must be the marker line carrying the command's status, without them the command must
+        # behave as typed (same status, no marker)
+        safe = [(b"true", 0), (b"false", 1), (b"(exit 3)", 3), (b"sh -c 'exit 7'", 7), (b"echo hi; (exit 255)", 255),
+                (b"echo no newline | tr -d '\\n'; (exit 42)", 42)]
+        ucmds = [u for u, _ in safe] + [b"cmd", b"ls -l /tmp", b"a;b", b"x" * 3000, b"q" + magic + b"1"] + \
+                [gen_text(rng, rng.randrange(1, 40), b"abc xyz;$?'\"|&01") for _ in range(10 if ctx.quick() else 300)]
+        cops = ["cmd %d %d %s" % (S, k, hexs(u)) for u in ucmds for S, k in ((0, 0), (1, 0), (0, 1), (1, 1))]
+        impl = run_batch([exe], [[o] for o in cops], env=env, timeout=300)
+        mod = ctx.model("exit", "".join(o + "\n" for o in cops), args=["model", bits])
+        for o, (ans, crash), m in zip(cops, impl, mod):
+            cov["evaluations"] += 1
+            dist["sent_command"] = dist.get("sent_command", 0) + 1
+            if crash is not None or not ans:
+                ctx.offender("crash", "dsh() harness aborts on %s: %s" % (o[:80], (crash or "")[-300:]), {"op": o})
+                continue
+            if not same_sent(o, ans[0], m):
+                ctx.disagreement("exit model vs dsh() (command handed to the transport)", "impl `%s` model `%s`" % (ans[0][:200], m[:200]),
+                                 {"op": o})
+            judge_sent(ctx, o, ans[0], dict(safe), magic)
         # ---- (c) exec_destroy on real children --------------------------------------------------
         hows = ["e%d" % c for c in sorted(set(CODES))] + ["s%d" % s for s in SIGS] + ["null"]
         if not ctx.quick():
@@ -511,17 +647,19 @@ def run(ctx):
                              "exited %s ms later with code %s: the code reported for a host must be the status the command "
                              "actually terminated with" % (ans[0], h[1:].split("_")[0], end[1:]), {"op": "xd " + h, "impl": ans[0]})
         # ---- (b) real dsh() on the scripted transport -----------------------------------------------
-        nd = 350 if ctx.quick() else 6000
-        scns = load_corpus_scn(magic) + [gen_scenario(rng, magic) for _ in range(nd)]
+        nd = 180 if ctx.quick() else 6000
+        sysc = systematic_scenarios()
+        dist["dsh_systematic"] = len(sysc)
+        scns = load_corpus_scn(magic) + sysc + [gen_scenario(rng, magic) for _ in range(nd)]
         if not ctx.quick():
             ex = exhaustive_vectors()
             dist["exhaustive_vectors"] = len(ex)
             scns += ex
-        raws = [gen_raw_scenario(rng, magic) for _ in range(150 if ctx.quick() else 3000)]
+        raws = [gen_raw_scenario(rng, magic) for _ in range(100 if ctx.quick() else 3000)]
         # time-outs (-u 1): an idle or a CHATTY command (the latter makes the worker notice the expiry itself at the top of
         # its poll loop), dying on SIGTERM or trapping it and returning a code; 1-2 s each, one harness process each
-        tscns = []
-        for _ in range(6 if ctx.quick() else 40):
+        tscns = systematic_timeouts()
+        for _ in range(2 if ctx.quick() else 40):
             n = rng.choice([1, 2, 3])
             hosts = [{"chan": "exec", "outcome": ("exited", rng.choice([0, 0, 3, 255])), "out": b"", "pre": b"", "late": b"",
                       "delay": 0} for _ in range(n)]
@@ -588,7 +726,7 @@ def run(ctx):
         report_bad(ctx, bad, bits, "dsh()")
         # targets canceled before they started (rcmd_create fails -> DSH_CANCELED, the state ^C ^Z leaves behind):
         # their command never ran, so -S must not report 0 ("0 only if every command on every target ran and succeeded")
-        cscn = []
+        cscn = systematic_canceled()
         for _ in range(25 if ctx.quick() else 400):
             n = rng.choice([1, 2, 3, 4])
             hosts = [rng.choice(["x1", "x1", "c1,o-,v0,d0,t0", "c1,o-,v0,d%d,t0" % rng.choice([0, 5]),
@@ -606,13 +744,15 @@ def run(ctx):
         hb = subprocess.run(["gcc", "-O1", "-w", os.path.join(HARNESS, "exit_helper.c"), "-o", helper])
         if repo and hb.returncode == 0:
             pdsh = os.path.join(repo, "src", "pdsh", "pdsh")
-            nc = 70 if ctx.quick() else 900
-            nt = 3 if ctx.quick() else 24
-            nl = 5 if ctx.quick() else 40
-            cs = [gen_cli_scenario(rng, magic, False) for _ in range(nc)] + \
+            nc = 50 if ctx.quick() else 900
+            nt = 1 if ctx.quick() else 24
+            nl = 2 if ctx.quick() else 40
+            syscli = systematic_cli()
+            dist["cli_systematic"] = len(syscli)
+            cs = syscli + [gen_cli_scenario(rng, magic, False) for _ in range(nc)] + \
                  [gen_cli_scenario(rng, magic, True) for _ in range(nt)] + \
                  [gen_late_exit_scenario(rng) for _ in range(nl)]
-            dist["cli_late_exit"] = nl
+            dist["cli_late_exit"] = nl + 3
             argvs = [cli_argv(pdsh, helper, s, magic) for s in cs] + [[pdsh] + r for r in REFUSED]
             with concurrent.futures.ThreadPoolExecutor(max_workers=8) as ex:
                 res = list(ex.map(run_cli, argvs))
@@ -742,6 +882,17 @@ def replay(ctx, cov, exe, repo, magic, bits, env):
             if case.get("expected") is not None and ans[0].split(" ")[0] != str(case["expected"]):
                 ctx.offender(sig if ans[0] == m else "xrc:unexplained", "_extract_rc(%r) = `%s`, the marker line denotes `%s`" %
                              (l, ans[0], case["expected"]), case)
+    elif str(case.get("op", "")).startswith("cmd "):
+        o = case["op"]
+        (ans, crash), = run_batch([exe], [[o]], env=env, timeout=60)
+        m = ctx.model("exit", o + "\n", args=["model", bits])[0]
+        ctx.log("replay: %s impl `%s` model `%s`" % (o[:80], ans, m))
+        if crash is not None or not ans:
+            ctx.offender("crash", "dsh() harness aborts on %s" % o[:80], case)
+        else:
+            if not same_sent(o, ans[0], m):
+                ctx.disagreement("exit model vs dsh() (command handed to the transport)", "impl `%s` model `%s`" % (ans[0][:200], m[:200]), case)
+            judge_sent(ctx, o, ans[0], {bytes.fromhex(o.split(" ")[3]): case.get("status", 0)}, magic)
     elif str(case.get("op", "")).startswith("xd "):
         h = case["op"][3:]
         (ans, crash), = run_batch([exe], [["xd " + h]], env=env, timeout=60)
@@ -799,6 +950,46 @@ def replay(ctx, cov, exe, repo, magic, bits, env):
     cov["traces_validated_against_impl"] = 1
     return ctx.finish(LEVEL, cov, assumptions=["replay of one recorded input"],
                       trusted_base=["see the full check"], checker_cmd="lake build PdshVerif.Props.C08")
+
+
+def same_sent(op, implhex, modelhex):
+    """the command string of the implementation and of the model: the user's command verbatim, what is appended to it
+    compared up to blanks (`;echo X` / `; echo X` are the same request to a shell)"""
+    u = op.split(" ")[3]
+    u = bytes.fromhex(u) if u != "-" else b""
+    a = bytes.fromhex(implhex) if implhex != "-" else b""
+    b = bytes.fromhex(modelhex) if modelhex not in ("-", "bad-op") else b""
+    if not (a.startswith(u) and b.startswith(u)):
+        return a == b
+    return a[len(u):].replace(b" ", b"") == b[len(u):].replace(b" ", b"")
+
+
+def judge_sent(ctx, op, anshex, safe, magic):
+    """`cmd S K HEX`: run the string dsh() handed to the transport in a real shell (only for the fixed harmless commands of
+    `safe`: command -> its exit status) and judge what it does"""
+    w = op.split(" ")
+    S, k, u = int(w[1]), int(w[2]), (bytes.fromhex(w[3]) if w[3] != "-" else b"")
+    if u not in safe:
+        return
+    got = bytes.fromhex(anshex) if anshex != "-" else b""
+    code = safe[u]
+    try:
+        p = subprocess.run(["/bin/sh", "-c", got.decode("latin1")], stdin=subprocess.DEVNULL, stdout=subprocess.PIPE,
+                           stderr=subprocess.PIPE, timeout=30, cwd="/", env={"PATH": "/usr/bin:/bin"})
+    except subprocess.TimeoutExpired:
+        return
+    lines = p.stdout.split(b"\n")
+    lastline = lines[-2] if len(lines) >= 2 and lines[-1] == b"" else lines[-1]
+    fl = ("S" if S else "") + ("k" if k else "")
+    case = {"op": op, "impl": anshex[-200:], "status": code, "shell_stdout": p.stdout[-200:].decode("latin1")}
+    if fl and not lastline.endswith(magic + b"%d" % code):
+        ctx.offender("%s:marker-not-requested" % fl,
+                     "with -%s dsh() asks the transport to run %r for the command %r; a shell running that prints %r as its last "
+                     "line, not the status marker `%s%d`: an in-band transport can never report the command's status"
+                     % (fl, got[-80:], u, lastline[-60:], magic.decode(), code), case)
+    if not fl and (p.returncode != code or magic in p.stdout):
+        ctx.offender("plain:command-changed", "without -S / -k dsh() asks the transport to run %r for the command %r: a shell running "
+                     "that ends with %d (the command alone: %d)" % (got[-80:], u, p.returncode, code), case)
 
 
 def judge_canceled(ctx, op, ans, crash, m):
